@@ -1,21 +1,32 @@
 #!/bin/bash
 # usage: tools/try_seed.sh <patch.diff> <check-id> [tier] [extra args]
-# Applies a seeded change to /repo, runs the check, and always reverts.
+# Applies a seeded change to a scratch worktree of /repo HEAD (outside /repo and
+# /verif), runs the check against it (VERIF_REPO), and always removes the worktree.
+# (Equivalent to `git -C /repo apply`; a scratch copy keeps concurrent runs that
+# use /repo undisturbed.)  Set SEED_IN_PLACE=1 to apply to /repo itself instead.
 set -u
 patch=$(realpath "$1"); check=$2; tier=${3:-quick}; shift; shift; shift || true
-cd /verif
-if ! git -C /repo diff --quiet; then echo "/repo has uncommitted changes" >&2; exit 9; fi
-if git -C /repo apply --check "$patch" 2>/dev/null; then
-  git -C /repo apply "$patch"
-elif git -C /repo apply --3way "$patch" >/dev/null 2>&1 && ! grep -rq '^<<<<<<< ' /repo/gemato /repo/utils; then
-  git -C /repo reset -q
+cd "$(dirname "$0")/.."
+if [ "${SEED_IN_PLACE:-0}" = 1 ]; then
+  wt=/repo
+  if ! git -C /repo diff --quiet; then echo "/repo has uncommitted changes" >&2; exit 9; fi
 else
-  git -C /repo reset -q --hard HEAD
+  wt=$(mktemp -d /tmp/seedwt-XXXXXX); rmdir "$wt"
+  git -C /repo worktree add --detach "$wt" HEAD >/dev/null 2>&1 || { echo "cannot create worktree"; exit 9; }
+fi
+cleanup() {
+  if [ "$wt" = /repo ]; then git -C /repo reset -q --hard HEAD; git -C /repo checkout -- .
+  else git -C /repo worktree remove --force "$wt" >/dev/null 2>&1; rm -rf "$wt"; fi
+}
+trap cleanup EXIT
+if git -C "$wt" apply --check "$patch" 2>/dev/null; then
+  git -C "$wt" apply "$patch"
+elif git -C "$wt" apply --3way "$patch" >/dev/null 2>&1 && ! grep -rq '^<<<<<<< ' "$wt/gemato" "$wt/utils"; then
+  git -C "$wt" reset -q
+else
   echo "PATCH DOES NOT APPLY: $patch"; exit 8
 fi
-timeout 2400 /venv/bin/python -m vf.run "$check" --tier "$tier" "$@"
+VERIF_REPO="$wt" timeout 2400 /venv/bin/python -m vf.run "$check" --tier "$tier" "$@"
 rc=$?
-git -C /repo reset -q --hard HEAD
-git -C /repo checkout -- .
 echo "== seed $patch on $check ($tier): exit $rc"
 exit $rc
